@@ -442,13 +442,13 @@ def r9_tail_pack_may_fill_the_file(cx):
         rel = {"gt": lambda x, y: x > y, "ge": lambda x, y: x >= y, "lt": lambda x, y: x < y, "le": lambda x, y: x <= y}[op]
         cond = (lambda fs, sz: rel(fs, sz)) if fs_pos == 0 else (lambda fs, sz: rel(sz, fs))
         # which outcome of the comparison goes on to cut the pack out of the file?
-        sw = [s for s in range(b.n) if b.term(s)["k"] == "switch" and ("call", i) in b.origins(b.term(s)["op"], through_calls=False) and 0 in b.term(s)["vals"]]
         verdict = None
-        if sw:
-            st = b.term(sw[0])
-            false_arm, true_arm = st["targets"][st["vals"].index(0)], st["otherwise"]
-            on_true = any(c in b.reachable(true_arm, avoid={sw[0]} | b.error_blocks()) for c in cuts)
-            on_false = any(c in b.reachable(false_arm, avoid={sw[0]} | b.error_blocks()) for c in cuts)
+        if True:
+            # which outcome of the comparison goes on to cut the pack out of the file: constant propagation from the
+            # comparison on, with its result assumed (an error built in a helper and sent up with `?` stays an error)
+            errs = b.error_blocks() | b.err_return_blocks()
+            on_true = any(c in b.explore(start=i, assume_calls={i: True}, avoid=errs)[0] for c in cuts)
+            on_false = any(c in b.explore(start=i, assume_calls={i: False}, avoid=errs)[0] for c in cuts)
             if on_true != on_false:
                 accepts = (lambda fs, sz: cond(fs, sz)) if on_true else (lambda fs, sz: not cond(fs, sz))
                 verdict = accepts(100, 100) and accepts(99, 100) and not accepts(101, 100)
